@@ -30,7 +30,7 @@ REPO = os.path.realpath(os.environ.get("VERIF_REPO", "/repo"))
 GUARD_ENV = "CSPUZ_VERIF_SIM"  # recorded in MANIFEST.hooks; the source does not read it.
 
 
-RUN_WALL_LIMIT = float(os.environ.get("VERIF_RUN_WALL_LIMIT", "120"))
+RUN_WALL_LIMIT = float(os.environ.get("VERIF_RUN_WALL_LIMIT", "40"))
 
 
 class RunTimeout(BaseException):
@@ -246,6 +246,7 @@ def _worker_chunk(args):
             raise RunTimeout()
 
         signal.signal(signal.SIGALRM, _on_alarm)
+        n_timeouts = 0
         for i in indices:
             seed = run_seed(master, prop_name, i)
             try:
@@ -261,6 +262,9 @@ def _worker_chunk(args):
                 out["harness_errors"].append(
                     {"index": i, "seed": seed, "trace": f"run exceeded {RUN_WALL_LIMIT}s of wall time (hang); never counted as a pass"}
                 )
+                n_timeouts += 1
+                if n_timeouts >= 2:
+                    break  # the code under test hangs repeatedly: do not burn the whole budget
                 continue
             except Exception:
                 out["harness_errors"].append({"index": i, "seed": seed, "trace": traceback.format_exc()})
@@ -390,11 +394,14 @@ def check(prop_name: str, tier: str, master: int, n_runs=None, out_evidence=True
         extra = prop.pre_check(tier, master) or {}
 
     agg = run_batch(prop_name, master, tier, n)
-    if agg["harness_errors"]:
+    harness_failed = bool(agg["harness_errors"])
+    if harness_failed:
         he = agg["harness_errors"][0]
-        print(f"HARNESS-ERROR property={prop_name} index={he['index']} seed={he['seed']}")
+        print(f"HARNESS-ERROR property={prop_name} index={he['index']} seed={he['seed']} ({len(agg['harness_errors'])} runs affected)")
         print(he["trace"])
-        return 2
+        if not agg["violations"] and not extra.get("violations"):
+            return 2
+        # violations found as well: report them (exit 1); a harness error never yields exit 0
 
     known = load_known_findings(prop_name)
     by_kind = collections.OrderedDict()
@@ -481,7 +488,9 @@ def check(prop_name: str, tier: str, master: int, n_runs=None, out_evidence=True
         f"violating_runs={n_violating_runs} unlisted_kinds={len(by_kind)} wall={wall:.1f}s",
         flush=True,
     )
-    return 1 if by_kind else 0
+    if by_kind:
+        return 1
+    return 2 if harness_failed else 0
 
 
 def deep(x):
